@@ -235,7 +235,11 @@ def other_subscriptions(ctx: Ctx) -> None:
             log: list[tuple[str, Any]] = []
             cli.subscribe_logs(lambda m: log.append(("log", m)))
             cli.subscribe_service_calls(lambda m: log.append(("svc", m)))
-            cli.subscribe_home_assistant_states(lambda e, a: log.append(("ha", (e, a))), lambda e, a: log.append(("ha_once", (e, a))))
+            with_req = rep % 3 != 0   # the 'once' handler is optional: without it every message, once or not, belongs to the state handler
+            if with_req:
+                cli.subscribe_home_assistant_states(lambda e, a: log.append(("ha", (e, a))), lambda e, a: log.append(("ha_once", (e, a))))
+            else:
+                cli.subscribe_home_assistant_states(lambda e, a: log.append(("ha", (e, a))))
             un_adv = cli.subscribe_bluetooth_le_advertisements(lambda a: log.append(("adv", a)))
             un_free = cli.subscribe_bluetooth_connections_free(lambda f, l: log.append(("free", (f, l))))
             msgs: list[Any] = []
@@ -250,7 +254,7 @@ def other_subscriptions(ctx: Ctx) -> None:
                     exp.append(("svc", m))
                 elif r == 2:
                     m = pb.SubscribeHomeAssistantStateResponse(entity_id=f"sensor.e{k}", attribute=rng.choice(["", "attr"]), once=bool(rng.randrange(2)))
-                    exp.append(("ha_once" if m.once else "ha", (m.entity_id, m.attribute)))
+                    exp.append(("ha_once" if (m.once and with_req) else "ha", (m.entity_id, m.attribute)))
                 elif r == 3:
                     m = pb.BluetoothLEAdvertisementResponse(address=k, name=b"n%d" % k, rssi=-k, service_uuids=["0x180F"])
                     exp.append(("adv", m))
@@ -337,10 +341,11 @@ def voice_assistant(ctx: Ctx) -> None:
     idx = 0
     for outcome in ("port", "none", "pending-then-unsub", "raises", "pending-then-port"):
         for with_audio in (True, False):
-            for seq_kind in ("start", "start-stop", "start-audio-end", "announce", "two-starts"):
+            for seq_kind in ("start", "start-stop", "start-audio-end", "announce", "two-starts", "announce-no-handler"):
                 idx += 1
                 if not ctx.mine(idx):
                     continue
+                with_ann = seq_kind != "announce-no-handler"   # the announcement handler is optional too
                 with Sim() as sim:
                     cli, dconn = session(sim)
                     ev: list[tuple[str, Any]] = []
@@ -366,7 +371,9 @@ def voice_assistant(ctx: Ctx) -> None:
                     async def h_ann(fin: Any) -> None:
                         ev.append(("announce", fin.success))
 
-                    kw: dict[str, Any] = {"handle_start": h_start, "handle_stop": h_stop, "handle_announcement_finished": h_ann}
+                    kw: dict[str, Any] = {"handle_start": h_start, "handle_stop": h_stop}
+                    if with_ann:
+                        kw["handle_announcement_finished"] = h_ann
                     if with_audio:
                         kw["handle_audio"] = h_audio
                     unsub = cli.subscribe_voice_assistant(**kw)
@@ -382,8 +389,9 @@ def voice_assistant(ctx: Ctx) -> None:
                         msgs.append(pb.VoiceAssistantRequest(start=False))
                     if seq_kind == "start-audio-end":
                         msgs += [pb.VoiceAssistantAudio(data=b"\x01\x02"), pb.VoiceAssistantAudio(data=b"\x03"), pb.VoiceAssistantAudio(end=True)]
-                    if seq_kind == "announce":
+                    if seq_kind in ("announce", "announce-no-handler"):
                         msgs.append(pb.VoiceAssistantAnnounceFinished(success=True))
+                        msgs.append(pb.VoiceAssistantRequest(start=False))
                     send_stream(sim, dconn, msgs, [1] * len(msgs))
                     if outcome == "pending-then-unsub":
                         unsub()
@@ -429,7 +437,7 @@ def voice_assistant(ctx: Ctx) -> None:
                             exp_rest.append(("stop", True))
                         elif t == "VoiceAssistantAudio" and with_audio:
                             exp_rest.append(("stop", False) if m.end else ("audio", m.data))
-                        elif t == "VoiceAssistantAnnounceFinished":
+                        elif t == "VoiceAssistantAnnounceFinished" and with_ann:
                             exp_rest.append(("announce", m.success))
                     rest = [e for e in ev if e[0] != "start"]
                     if rest != exp_rest:
